@@ -1,6 +1,6 @@
 (* C15 — keep-alive timer requests are consistent and complete.  Statements only; proofs are in
-   Conn/Timers.v.  Nothing else may be added to this file. *)
-From MQ Require Import Base.Prelude Conn.Types Conn.ConnRecord Conn.Step Conn.Run Corr.ConnTrace Conn.Timers.
+   Conn/Timers.v, Conn/RearmInv.v and Conn/RearmInv2.v.  Nothing else may be added to this file. *)
+From MQ Require Import Base.Prelude Conn.Types Conn.ConnRecord Conn.Step Conn.Run Corr.ConnTrace Conn.Timers Conn.RearmInv Conn.RearmInv2.
 
 (* For EVERY state and API call: replaying the timer requests of the returned event list over the
    connection's timer flags before the call (after clearing the flag of a timer whose expiry is
@@ -57,6 +57,34 @@ Theorem C15_refresh_spec : forall c,
     if negb (c_pingreq_recv_to c =? 0) then [ETimerReset TPingreqRecv (c_pingreq_recv_to c)] else [].
 Proof. exact refresh_spec. Qed.
 Print Assumptions C15_refresh_spec.
+
+(* "a client re-arms the PINGREQ timer after every packet it sends, with the interval chosen by
+   priority" as ONE statement about EVERY call of the API, every state, every input — user sends of
+   every kind, automatic responses, the timer's PINGREQ, retransmissions on resume, alias-rewritten
+   publishes: in the event list of the call, after the LAST packet requested for sending there is a
+   reset of the PINGREQ-send timer with the interval of the state the call returns ([pick_interval]:
+   application override, then Server Keep Alive, then CONNECT keep-alive) — unless the call also
+   requests a close (DISCONNECT sent, refusal, error), the object is not a client, or the interval is 0.
+   [rearmed cl ms e]: no send in e, or a close in e, or not (cl and 0 < ms), or a
+   reset(PingreqSend, ms) among the events after the last send. *)
+Theorem C15_step_rearms : forall g c o,
+  match step g c o with
+  | Ok (c', evs, _) => rearmed (c_is_client c') (pick_interval c') evs = true
+  | Panic _ => True
+  end.
+Proof. exact step_rearms. Qed.
+Print Assumptions C15_step_rearms.
+
+(* [rearmed] is not vacuous: it rejects a client send that is not followed by the reset, and a reset
+   with the wrong interval; it accepts the reset after the last send *)
+Example C15_rearmed_nonvacuous :
+  let p := pingreq_pkt V311 in
+  rearmed true 10000 [ESend p None] = false /\
+  rearmed true 10000 [ESend p None; ETimerReset TPingreqSend 5000] = false /\
+  rearmed true 10000 [ETimerReset TPingreqSend 10000; ESend p None] = false /\
+  rearmed true 10000 [ESend p None; ETimerReset TPingrespRecv 500; ETimerReset TPingreqSend 10000] = true /\
+  rearmed true 10000 [ESend p None; EClose] = true /\ rearmed false 10000 [ESend p None] = true.
+Proof. vm_compute. repeat split; reflexivity. Qed.
 
 (* non-vacuity: a client with keep-alive 10 s sends a PINGREQ with a response timeout configured;
    and the replay does reject a cancel for an unarmed timer *)
